@@ -59,6 +59,11 @@ def compatStr (b : Bytes) : V :=
   | some cps => .str cps
   | Option.none => .bytes b
 
+/-- `compat_str` applied to an already-built value: bytes are decoded when they are UTF-8 -/
+def compatV : V → V
+  | .bytes b => compatStr b
+  | v => v
+
 def rRef (v : V) (save : Bool) : M V := do
   if save then modify fun s => { s with refs := s.refs ++ [v] }
   pure v
@@ -98,7 +103,7 @@ mutual
 def rObject (c : Cfg) : Nat → Nat → Bool → M V
   | 0, _, _ => throw .outOfFuel
   | fuel + 1, depth, bfs => do
-    if depth > c.depthLimit then throw .recursionError
+    if depth > c.depthLimit then throw .recursionError else do
     let b ← readN 1
     match b with
     | [] => throw .typeError                   -- ord(b'')
@@ -145,9 +150,15 @@ def rObject (c : Cfg) : Nat → Nat → Bool → M V
           rRef v save
       | 116 => do                                                      -- 't' interned
           let n ← rI32; let s ← readN n
-          let v := compatStr s
-          modify fun st => { st with strs := st.strs ++ [v] }
-          rRef v save
+          if verGeL c.version 3 0 then
+            match Utf8.decodeSurrogatePass s with                      -- 3.4+: interned text
+            | some cps => do
+                modify fun st => { st with strs := st.strs ++ [.str cps] }
+                rRef (.str cps) save
+            | Option.none => throw .unicodeError
+          else do                                                      -- Python 2: the raw str is kept
+            modify fun st => { st with strs := st.strs ++ [.bytes s] }
+            rRef (if bfs then .bytes s else compatStr s) save
       | 117 => do                                                      -- 'u'
           let n ← rI32; let s ← readN n
           if !(verGeL c.version 3 0) then rRef (.u2 s) save
@@ -187,7 +198,7 @@ def rObject (c : Cfg) : Nat → Nat → Bool → M V
           let n ← rI32
           let s ← get
           match pyIndex s.strs n with
-          | some v => pure v
+          | some v => pure (if bfs then v else compatV v)
           | Option.none => throw .indexError
       | 114 => do                                                      -- 'r'
           let n ← rI32
